@@ -75,6 +75,7 @@ def run(ctx, rep):
     sector(prog, rep)
     rounded(prog, rep)
     rows_without_hit(prog, rep)
+    points_end(prog, rep)
     # triangle: canonical edges in contains() and in the scanline intersection (shared with C19)
     c19.triangle_edges(prog, rep)
     rectangle(prog, rep)
@@ -439,6 +440,49 @@ def rounded(prog, rep):
             probs.append("%s must be searched with %s (first/last contained column), found %s" % (q, wc, cons))
     rep.check(not probs, "R05.2", "rounded:points-table", "; ".join(probs[:3]), at=nx.span, fn=nx.path, detail={k: str(v) for k, v in got.items()})
     rep.sample({"rule": "R05.2", "contains_table": {k: str(v) for k, v in table.items()}, "points_table": {str(k): str(v) for k, v in got.items()}})
+    # R05.5 a corner row in which the corner search accepts no column: contains() rejects every column of the corner's
+    # box in that row (contains-table above: in a corner row the columns of the corner are decided by the quadrant
+    # alone), so the row starts right of the left corner / ends left of the right corner.  Falling back to the
+    # rectangle's own first / last column hands out the corner's columns although no point of them is contained.
+    def unclone(t):
+        t = strip_refs(fold(t)) if isinstance(t, tuple) else t
+        while isinstance(t, tuple) and t and t[0] == "call" and t[1].split("::")[-1] in ("clone", "into_iter", "by_ref") and len(t[3]) == 1:
+            t = strip_refs(t[3][0])
+        return t
+    cols = ("field", rr, fidx["columns"])
+    bad5, und5, n5 = [], [], 0
+    for sm in summs:
+        r = sm.ret
+        m = match(r, ("agg", "*Option::Some", (("call", "*Scanline::new", "_", ("?y", ("agg", "*Range::Range", ("?s", "?e")))),))) if r is not None else None
+        if m is None:
+            continue
+        fs = nocast(sm.facts)
+        for side, qs, own, edge in (("left", ("top_left", "bottom_left"), 0, 1), ("right", ("top_right", "bottom_right"), 1, 0)):
+            q = [q_ for q_ in qs if guard_fact(rr, want[q_], m["?y"]) in fs]
+            if len(q) != 1:
+                continue                      # a straight row on this side
+            q = q[0]
+            qf = ("field", rr, fidx[q])
+            if any(fct[0] == "true" and fct[1][0] == "call" and fct[1][1].endswith("::contains") and len(fct[1][3]) == 2 and fct[1][3][0] == qf for fct in fs):
+                continue                      # the search accepted a column: R05.2 (find / rfind) speaks for the bound
+            v = m["?s"] if side == "left" else m["?e"]
+            v = fold(v) if isinstance(v, tuple) else v
+            if any(n_[0] == "payload" and n_[1][0] == "call" and (is_continues(n_[1]) or n_[1][1].split("::")[-1] in ("next", "next_back", "find", "rfind")) for n_ in walk(v)):
+                continue                      # a column the search handed out (found after the first one)
+            n5 += 1
+            base = unclone(v[1]) if v[0] == "field" else None
+            if v[0] == "field" and base == cols and v[2] == own:
+                bad5.append("a %s row in which no column of the corner is inside it %s at the rectangle's own %s column: contains() rejects the corner's columns of that row" % (q.replace("_", " "), "starts" if side == "left" else "ends", "first" if side == "left" else "last"))
+            elif v[0] == "field" and v[2] == edge and base is not None and match(base, ("call", "*::columns", "_", (("call", "*::bounding_box", "_", (qf,)),))) is not None:
+                pass
+            else:
+                und5.append("%s bound of a %s row without an accepted column is %s" % (side, q, show(v, maxd=5)))
+    if bad5:
+        rep.fail("R05.5", "rounded:corner-row-without-hit", "; ".join(sorted(set(bad5))[:2]), at=nx.span, fn=nx.path)
+    elif und5 or n5 < 4:
+        rep.fail("R05.5", "rounded:corner-row-without-hit", "; ".join(sorted(set(und5))[:2]) or "expected failed-search paths for the four corners (%d)" % n5, status="undecided", at=nx.span, fn=nx.path)
+    else:
+        rep.ok("R05.5", "rounded:corner-row-without-hit", at=nx.span, fn=nx.path, detail={"paths": n5})
     # constructor: straight rows
     nw = prog.method1(RC, "new", None)
     init = strip_refs(Origins(nw).return_origin())
@@ -523,6 +567,49 @@ def rows_without_hit(prog, rep):
         except Unsupported as e:
             bad.append("cannot summarise: %s" % e)
         rep.check(not bad and n >= 1, "R05.4", shape + ":empty-row", "a row without an accepted column must not end points(): %s" % "; ".join(sorted(set(bad))[:2]), at=nx.span, fn=nx.path)
+
+
+def points_end(prog, rep):
+    """R05.6 rounded_rectangle::Points::next ends only when its scanline source is exhausted.  A scanline of a rounded
+    rectangle can be empty (both corner searches of a row fail and the corners touch; a left hit right of the right
+    hit) while later rows hold points, so a path that ends because the *freshly taken* scanline yields no point loses
+    them.  (circle / ellipse: their Scanlines hand out a scanline only for an accepted column, it is never empty.)"""
+    PT = PRIM + "rounded_rectangle::points::Points"
+    try:
+        nx = prog.method1(PT, "next", "core::iter::traits::iterator::Iterator")
+    except Exception as e:
+        rep.fail("R05.6", "rounded:points-end", "anchor lost: %s" % e, status="undecided")
+        return
+    NONE = ("agg", "core::option::Option::None", ())
+    bad, und, n_end = [], [], 0
+    try:
+        summs = Paths(prog, loops="once").of(nx)
+    except Unsupported as e:
+        rep.fail("R05.6", "rounded:points-end", "cannot summarise: %s" % e, status="undecided", at=nx.span, fn=nx.path)
+        return
+    fields = prog.adts[PT]["variants"][0]["fields"]
+    def src_call(t):
+        return t[0] == "call" and t[1].endswith("points::Scanlines as core::iter::traits::iterator::Iterator>::next")
+    for sm in summs:
+        r = sm.ret
+        if r is None or (r[0] == "agg" and str(r[1]).endswith("Option::Some")):
+            continue
+        exhausted = any(fct[0] == "variant" and fct[2] == ("None",) and src_call(fct[1]) for fct in sm.facts)
+        took = any(fct[0] == "variant" and fct[2] == ("Some",) and src_call(fct[1]) for fct in sm.facts)
+        if r == NONE:
+            n_end += 1
+            if not exhausted:
+                bad.append("next() returns None although the scanline source is not exhausted (%s)" % "; ".join(show_fact(x)[:90] for x in sm.facts)[:260])
+        elif took and not exhausted:
+            bad.append("after taking a fresh scanline next() returns %s, which is None for an empty scanline: the enumeration ends although later rows may hold points" % show(r, maxd=2)[:120])
+        else:
+            und.append("next() returns %s" % show(r, maxd=3)[:160])
+    if bad:
+        rep.fail("R05.6", "rounded:points-end", "; ".join(sorted(set(bad))[:2]), at=nx.span, fn=nx.path)
+    elif und or n_end < 1:
+        rep.fail("R05.6", "rounded:points-end", "; ".join(sorted(set(und))[:2]) or "no ending path found", status="undecided", at=nx.span, fn=nx.path)
+    else:
+        rep.ok("R05.6", "rounded:points-end", at=nx.span, fn=nx.path, detail={"ending_paths": n_end})
 
 
 def _field_names(prog, adt, t):
